@@ -29,6 +29,8 @@ def cases(tier, seed):
     yield from plot_cases()
     # call history on ONE sampler: the same observations split into surveys differently on the second call
     yield "history/5+3-then-3+5", {"kind": "history"}
+    # many surveys: the k-th offset prior handed to the prior is the prior of the k-th further survey (dv0_10 comes after dv0_9, not after dv0_1)
+    yield "many-offsets/11", {"kind": "many", "n": 11}
 
 
 def plot_cases():
@@ -52,7 +54,7 @@ def interleaved(inp):
 
 
 def nontrivial(inp):
-    if inp["kind"] in ("plot", "history"):
+    if inp["kind"] in ("plot", "history", "many"):
         return True
     sh, tm = inp["shape"], inp["times"]
     pos = 0
@@ -72,6 +74,20 @@ def check(inp):
     bad = lambda name, **d: fails.append((f"twin:validate_prepare_data/{name}", d))
     if inp["kind"] == "plot":
         return check_plot(inp)
+    if inp["kind"] == "many":
+        import pymc as pm
+        import thejoker.units as xu
+        from thejoker import JokerPrior
+        n = inp["n"]
+        with pm.Model() as model:
+            offs = [xu.with_unit(pm.Normal(f"dv0_{k}", 0.0, 1.0 + k), u.km / u.s) for k in range(1, n + 1)]
+            prior = JokerPrior.default(P_min=2 * u.day, P_max=100 * u.day, sigma_K0=25 * u.km / u.s, sigma_v=50 * u.km / u.s, v0_offsets=list(offs), model=model)
+        got = [getattr(p, "name", None) for p in prior.v0_offsets]
+        if len(prior.v0_offsets) != n or any(a is not b for a, b in zip(prior.v0_offsets, offs)):
+            fails.append(("twin:JokerPrior.__init__/offset-priors-kept-in-the-given-order", {"got": got}))
+        if list(prior.par_names)[-n:] != [f"dv0_{k}" for k in range(1, n + 1)]:
+            fails.append(("twin:JokerPrior.__init__/offset-parameters-named-in-survey-order", {"got": list(prior.par_names)[-n:]}))
+        return fails
     if inp["kind"] == "history":
         return check_history(inp)
     sh, tm = inp["shape"], inp["times"]
